@@ -717,7 +717,9 @@ class Exec:
                     inrange = True; PATH_RNG[full.get_id()] = (max(r0, lo), min(r1, hi)); _keep.append(full)
             if op.endswith('WithOverflow'):
                 if inrange: return Agg('tuple', None, [Scalar(full, a.ty), FALSE])
-                return Agg('tuple', None, [Scalar(wrap(full, a.ty), a.ty), Scalar(z3.Or(full < lo, full > hi), 'bool')])
+                # the value component is only used on the no-overflow side of the compiler's `assert(!overflow)` (or of
+                # checked_*'s test), where it equals the exact result: keep it unwrapped so that interval analysis stays tight
+                return Agg('tuple', None, [Scalar(full, a.ty), Scalar(z3.Or(full < lo, full > hi), 'bool')])
             return Scalar(full if inrange else wrap(full, a.ty), a.ty)
         raise Unsupported('binop ' + op)
     BINOPS = ('Eq', 'Ne', 'Lt', 'Le', 'Gt', 'Ge', 'Add', 'Sub', 'Mul', 'Div', 'Rem', 'BitAnd', 'BitOr', 'BitXor',
